@@ -71,8 +71,8 @@ func c39Run(r *vmc.Result, sc c39Scenario, c *vmc.Chooser) {
 	results := make([]c39Result, len(sc.Reqs))
 	var mu sync.Mutex
 	var wg sync.WaitGroup
-	for i, rq := range sc.Reqs {
-		i, rq := i, rq
+	issue := func(i int) bool {
+		rq := sc.Reqs[i]
 		before := nt.sentLen()
 		wg.Add(1)
 		go func() {
@@ -83,27 +83,48 @@ func c39Run(r *vmc.Result, sc c39Scenario, c *vmc.Chooser) {
 			mu.Unlock()
 		}()
 		// the request frame is written before the caller blocks
-		if !nsWait(func() bool {
+		return nsWait(func() bool {
 			mu.Lock()
 			d := results[i].done
 			mu.Unlock()
 			return nt.sentLen() > before || d
-		}) {
-			r.HarnessError("C39: request %d never sent", i)
-			return
-		}
+		})
 	}
-	// all delivery orders
+	// every interleaving of "requester i issues its request" (in scenario order per requester) and
+	// "deliver the head frame of link l": a request may be issued while others are already in flight
+	issued := 0
 	for steps := 0; steps < 1000; steps++ {
 		p := nt.pending()
-		if len(p) == 0 {
+		n := len(p)
+		if issued < len(sc.Reqs) {
+			n++
+		}
+		if n == 0 {
 			break
 		}
 		k := 0
-		if len(p) > 1 {
-			k = c.Choose(len(p), 0, "deliver")
+		if n > 1 {
+			k = c.Choose(n, 0, "next")
+		}
+		if issued < len(sc.Reqs) && k == 0 {
+			if !issue(issued) {
+				r.HarnessError("C39: request %d never sent", issued)
+				return
+			}
+			issued++
+			continue
+		}
+		if issued < len(sc.Reqs) {
+			k--
 		}
 		nt.deliver(p[k][0], p[k][1])
+		// a delivered response wakes its caller asynchronously; let it return before the next
+		// choice so that executions are deterministic
+		nsWait(func() bool {
+			mu.Lock()
+			defer mu.Unlock()
+			return c39Pending(nt) == c39WaitingIssued(results, issued)
+		})
 	}
 	// quiescent: callers that got an answer have returned (or return promptly); give the
 	// goroutines their (count-based) chance: a response written to a buffered channel wakes them
@@ -205,4 +226,14 @@ func TestVerif_C39(t *testing.T) {
 	if err := r.Finish(); err != nil {
 		t.Fatal(err)
 	}
+}
+
+func c39WaitingIssued(results []c39Result, issued int) int {
+	n := 0
+	for i := 0; i < issued; i++ {
+		if !results[i].done {
+			n++
+		}
+	}
+	return n
 }
